@@ -72,6 +72,27 @@ Clause(c) ==
      ELSE IF c.sigma = 0 /\ sum > 0 /\
              (c.nan.xcen \/ c.nan.ycen \/ ~Near(c.xcen_k * sum, S * FoldSet(LAMBDA p, acc : acc + p[2] * v[p], 0, P), 2 * sum + 2)
               \/ ~Near(c.ycen_k * sum, S * FoldSet(LAMBDA p, acc : acc + p[1] * v[p], 0, P), 2 * sum + 2)) THEN "centroid_is_centre_of_mass_in_image_coordinates"
+     \* covariance matrix = second central moments of the values over P (about their centre of mass), in 1/256 px^2:
+     \* cov_xx * m00^2 = m02 * m00 - m01^2 etc. (coordinates relative to the box origin).  Clearly regular sources (det >= 2/144)
+     \* carry no regularisation; clearly thin ones (det < 1/288) get the same k/12 on both diagonals; a negative determinant
+     \* (possible with negative values) is a don't-care
+     ELSE IF c.sigma = 0 /\ sum > 0 /\ ~c.nan.cov /\
+             (LET ox == bx[1]  oy == bx[3]
+                  m01 == FoldSet(LAMBDA p, acc : acc + (p[2] - ox) * v[p], 0, P)   m10 == FoldSet(LAMBDA p, acc : acc + (p[1] - oy) * v[p], 0, P)
+                  m02 == FoldSet(LAMBDA p, acc : acc + (p[2] - ox) * (p[2] - ox) * v[p], 0, P)
+                  m20 == FoldSet(LAMBDA p, acc : acc + (p[1] - oy) * (p[1] - oy) * v[p], 0, P)
+                  m11 == FoldSet(LAMBDA p, acc : acc + (p[2] - ox) * (p[1] - oy) * v[p], 0, P)
+                  A == m02 * sum - m01 * m01   B == m20 * sum - m10 * m10   C == m11 * sum - m01 * m10
+                  mm == sum * sum
+                  small == A >= 0 /\ B >= 0 /\ A < 30000 /\ B < 30000 /\ Abs(C) < 30000 /\ mm < 30000
+                  det == A * B - C * C
+                  regular == det >= (2 * mm * mm) \div 144 + 1
+                  thin == det >= 0 /\ det < (mm * mm) \div 288
+                  dx == c.cov[1] * mm - 256 * A   dy == c.cov[3] * mm - 256 * B   dxy == c.cov[2] * mm - 256 * C
+                  tol == 3 * mm
+              IN small /\ det >= 0 /\ (\/ ~Near(dxy, 0, tol)
+                                        \/ (regular /\ (~Near(dx, 0, tol) \/ ~Near(dy, 0, tol)))
+                                        \/ (thin /\ (~Near(dx, dy, 2 * tol) \/ dx < (256 * mm) \div 12 - tol)))) THEN "covariance_is_second_central_moment_of_pixel_set"
      \* sums with the sum_method weights (no sigma clip): counted = positive weight, unmasked, finite
      ELSE IF c.sigma = 0 /\ (sh.ang = 0 \/ sh.kind \in {"circle", "cann"}) /\ c.s \in {1, 2, 4} /\
              (LET cnt == [p \in common |-> Count(sh, c.cx, c.cy, p[1], p[2], c.s, Q, "impl")]
